@@ -18,6 +18,7 @@ from vmon import core, gen, contracts, cli, pipeline
 from vmon import refmodel as rm
 from vmon.shadow import ShadowTrajectory
 
+ANCHORS = ['evo/core/metrics.py', 'evo/core/lie_algebra.py', 'evo/main_ape.py', 'evo/common_ape_rpe.py']
 LEVEL = "exploration"
 SHARDS = {"quick": 8, "thorough": 16}
 RULE = ("L1: pairs of pose sequences (positions 1e-3..1e6 incl. UTM offsets, rotations over SO(3) "
